@@ -73,14 +73,15 @@ function checkMap ({ a, resp, code, file, v, res }) {
           else if (s.ol !== ip.line || s.oc !== ip.col) v('identifier-maps-elsewhere', s.ol !== ip.line ? 'line' : 'column', `identifier ${n.value} at content ${gp.line}:${gp.col} maps to ${s.ol}:${s.oc}, its original position is ${ip.line}:${ip.col}`)
         }
       }
-      if (/Statement$|Declaration$/.test(n.type) && n.type !== 'BlockStatement') stmts.push({ in: n.$span, out: o.$span, type: n.type })
+      if (/Statement$|Declaration$/.test(n.type) && n.type !== 'BlockStatement') stmts.push({ in: n.$span, out: o.$span, type: n.type, node: n })
       if (n.type === 'BlockStatement') blocks.push({ in: n.$span, out: o.$span })
     }
     for (const k of Object.keys(n)) if (k[0] !== '$') w(n[k])
   })(a.inTree)
   res.notes.identifiers = idents
   // 3. every mapping generated inside a statement maps into the line span of that statement
-  const S = stmts.map((s) => ({ gs: outPos(s.out), ge: outEnd(s.out), is: inPos(s.in).line, ie: tin.fromByte(s.in.end - 2 >= 0 ? s.in.end - 2 : 0).line, type: s.type, len: s.out.end - s.out.start })).sort((x, y) => x.len - y.len)
+  const hasHook = (n) => { let f = false; (function w (x) { if (f || x === null || typeof x !== 'object') return; if (Array.isArray(x)) { x.forEach(w); return } if (x.$hooked || x.$guarded) { f = true; return } for (const k of Object.keys(x)) if (k[0] !== '$') w(x[k]) })(n); return f }
+  const S = stmts.map((s) => ({ instrumented: hasHook(s.node), gs: outPos(s.out), ge: outEnd(s.out), is: inPos(s.in).line, ie: tin.fromByte(s.in.end - 2 >= 0 ? s.in.end - 2 : 0).line, type: s.type, len: s.out.end - s.out.start })).sort((x, y) => x.len - y.len)
   const le = (p, q) => p.line < q.line || (p.line === q.line && p.col <= q.col)
   const lt = (p, q) => p.line < q.line || (p.line === q.line && p.col < q.col)
   // only segments that sit on a code token are judged: a segment on white space or on a (possibly emptied)
@@ -95,6 +96,9 @@ function checkMap ({ a, resp, code, file, v, res }) {
   }
   // every statement starts with a mapping of its own (so no position inherits from the previous statement)
   for (const st of S) {
+    // only statements that received injected code are judged here: an untouched statement (an empty `;`,
+    // a declaration) has no injected token that could inherit a foreign position
+    if (!st.instrumented) continue
     const s = SM.lookup(d, st.gs.line, st.gs.col)
     if (!s || s.gl !== st.gs.line || s.gc !== st.gs.col) { v('statement-start-unmapped', st.type, `the ${st.type} at content ${st.gs.line}:${st.gs.col} has no mapping at its first token`); break } else if (s.ol < st.is || s.ol > st.ie) { v('statement-start-maps-outside-statement', st.type, `the ${st.type} at content ${st.gs.line}:${st.gs.col} maps to line ${s.ol}, statement spans ${st.is}-${st.ie}`); break }
   }
@@ -118,6 +122,8 @@ function checkMap ({ a, resp, code, file, v, res }) {
 module.exports = mk({
   id: 'C09',
   families: ['A', 'B', 'C', 'M'],
+  // real library files: the same static oracle on syntax nobody wrote an expectation for
+  corpus: { configs: ['FULL', 'RENAMED'], quickLimit: 60 },
   familyOpts: (tier) => ({ B: { k: 1 }, A: tier === 'thorough' ? {} : {} }),
   extra: async (tier) => {
     // layout x file-name x comments family over representative programs
@@ -154,7 +160,7 @@ module.exports = mk({
     if (!a.modified || a.contentUnparsable || a.inputUnparsable) return
     if (leaf.chained) return // composition is C10's business; here the map must describe THIS input
     res.nontrivial = true
-    checkMap({ a, resp, code, file: leaf.file || '/p/app.js', v, res })
+    checkMap({ a, resp, code, file: require('../lib/static_driver').leafFile(leaf), v, res })
   },
   bound: (tier) => ({ layout_file_comments_deviations_k: tier === 'thorough' ? 3 : 1, layouts: Object.keys(LAYOUTS).length, files: FILES.length }),
   alphabets: () => ({ layouts: Object.keys(LAYOUTS), files: FILES }),
